@@ -106,6 +106,10 @@ def header(c):
     return f"CASE {c['cid']} tworate {bits(c['cir'])} {bits(c['cbs'])} {fbits(c['pir'])} {fbits(c['pbs'])}"
 
 
+ASSUMPTIONS.append('two-rate cases may feed packets that already carry a colour; the incoming colour is not an input of the model nor of the oracle '
+                   '(the property colours every packet by the state of this bucket alone)')
+
+
 def feeder(env, dev, script, counter, pre=None, nput=None):
     for gap, burst in script:
         yield env.timeout(gap)
